@@ -412,8 +412,7 @@ def run(ctx):
                     def parent_of(v, base):
                         nf = prog.node_field(v) if v.kind == 'load' else None
                         return nf is not None and nf[1] == ('parent',) and strip(nf[0]) is base
-                    if not all(parent_of(a, P) for a in steps):
-                        continue
+                    p_follows = all(parent_of(a, P) for a in steps)
                     for N in phis:
                         if N is P or 'same_as' in N.extra:
                             continue
@@ -423,10 +422,19 @@ def run(ctx):
                         # (N, P) start as child and parent: P0 == node(N0).parent
                         if not ninit or not all(any(parent_of(p0, n0) for n0 in ninit) for p0 in inits):
                             continue
+                        n_follows = bool(nstep) and all(a is P for a in nstep)
+                        # the pair is recognised by either half of the step (parent := its own parent link; node := old parent)
+                        if not p_follows and not n_follows:
+                            continue
                         n_climb += 1
                         bad = [a for a in nstep if a is not P]
                         line = f.line
-                        if bad:
+                        badp = [a for a in steps if not (parent_of(a, P) or any(parent_of(a, x) for x in nstep if x is P))]
+                        if n_follows and badp:
+                            ctx.add('CLIMB', f, 'pair(%s,%s)' % (b.local_name(N.extra.get('local', 0)), b.local_name(P.extra.get('local', 0))), 'violation',
+                                    'an upward loop keeps a node cursor and its parent cursor (the node cursor becomes the old parent); the parent cursor must become the parent link of the new node, but it is set to %s, which is that only in the first round' % show(badp[0], 3),
+                                    PROPS + ['C10'], line)
+                        elif bad:
                             ctx.add('CLIMB', f, 'pair(%s,%s)' % (b.local_name(N.extra.get('local', 0)), b.local_name(P.extra.get('local', 0))), 'violation',
                                     'an upward loop keeps a node cursor and its parent cursor (the parent cursor follows the parent link); the node cursor must become the old parent, but it is set to %s: from the second round on the pair no longer is (child, parent)' % show(bad[0], 3),
                                     PROPS + ['C10'], line)
